@@ -53,6 +53,148 @@ def _is_delegate(body):
     return body.fn.startswith('<') or '::delegates::' in body.fn
 
 
+# ----------------------------------------------------------------- shape tolerance: the poll extracted into a helper
+def _wait_helpers(F):
+    """Synchronous functions of the workspace that call Wait::wait themselves (`fn poll_status(&mut self, target)
+    { let r = self.system.wait(target)?; .. }`): a call of such a private same-module helper is analysed in place."""
+    hs = getattr(F, '_c13_wait_helpers', None)
+    if hs is None:
+        hs = set()
+        for fn, b in F.bodies.items():
+            if b.d.get('coroutine') or _is_delegate(b) or not b.root.startswith(('yash_', '<yash_')):
+                continue
+            if Q.find_calls(b, WAIT):
+                hs.add(fn)
+        F._c13_wait_helpers = hs
+    return hs
+
+
+def _with_wait_inlined(F, body):
+    """`body` with the private same-module helpers that poll wait() inlined (F.inlined: `body` itself if there is none)."""
+    hs = _wait_helpers(F)
+    if not hs or not any((t['f'].get('def') or '') in hs for _, t in body.calls()):
+        return body
+    cache = F.__dict__.setdefault('_c13_inlined', {})
+    if body.fn not in cache:
+        from facts import same_module_private
+        base = same_module_private(F, body.root)
+        cache[body.fn] = F.inlined(body, accept=lambda c: c in hs and base(c))
+    return cache[body.fn]
+
+
+def _status_class(F, body, du, wt):
+    """Locals that hold the very answer of the wait() call `wt` (unchanged), by level: {local: 'R' | 'C' | 'O' | 'E'}.
+    'R': the Result itself - plain moves of it, also re-built as `Ok(option)` / `from_residual(its error)` (a helper
+    ending in `Ok(update)` after `let update = wait()?`); 'C': the ControlFlow Try::branch makes of an R local; 'O': the
+    Option<(pid, state)> payload (of `?` or of a match on the Result) and plain copies of it; 'E': the error payload.
+    A local qualifies only if EVERY definition of it is such a copy, and an 'O' local only if it is never borrowed mutably."""
+    lvl = {wt['dest']['l']: 'R'}
+
+    def plain_local(o):
+        p = Q.operand_place(o)
+        return p['l'] if p is not None and Q.is_plain(p) else None
+
+    def payload_of(o, variant_level):
+        """operand `(x as V).0` with (V, level of x) in variant_level"""
+        p = Q.operand_place(o)
+        proj = (p or {}).get('p') or []
+        if len(proj) == 2 and isinstance(proj[0], dict) and isinstance(proj[1], dict) and str(proj[1].get('f')) == '0':
+            return (proj[0].get('v'), lvl.get(p['l'])) in variant_level
+        return False
+
+    def is_r(d):
+        blk, j, node = d
+        if j == 't':       # from_residual(e): the error answer, passed on
+            return node is wt or (Q.callee_is(node, Q.FROM_RESIDUAL) and len(node['a']) == 1 and lvl.get(plain_local(node['a'][0])) == 'E')
+        if node['k'] != 'assign' or node['lhs'].get('p'):
+            return False
+        rv = node['rv']
+        if rv['k'] == 'use':
+            return lvl.get(plain_local(rv['o'])) == 'R'
+        if rv['k'] == 'agg' and (rv.get('adt') or '') == 'core::result::Result' and rv.get('variant') == 'Ok':
+            return len(rv.get('ops') or []) == 1 and lvl.get(plain_local(rv['ops'][0])) == 'O'
+        return False
+
+    def is_c(d):
+        blk, j, node = d
+        return j == 't' and Q.callee_is(node, Q.TRY_BRANCH) and len(node['a']) == 1 and lvl.get(plain_local(node['a'][0])) == 'R'
+
+    def is_payload(level, variants):
+        def pred(d):
+            blk, j, node = d
+            if j == 't' or node['k'] != 'assign' or node['lhs'].get('p') or node['rv']['k'] != 'use':
+                return False
+            o = node['rv']['o']
+            return lvl.get(plain_local(o)) == level or payload_of(o, variants)
+        return pred
+    preds = (('R', is_r), ('C', is_c), ('O', is_payload('O', {('Continue', 'C'), ('Ok', 'R')})),
+             ('E', is_payload('E', {('Break', 'C')})))
+    changed = True
+    while changed:
+        changed = False
+        for l, ds in du.defs.items():
+            if l in lvl or not ds:
+                continue
+            for level, pred in preds:
+                if all(pred(d) for d in ds):
+                    lvl[l] = level
+                    changed = True
+                    break
+    # a mutable borrow could change the value between two tests of it
+    for b, j, s in body.stmts():
+        if s['k'] == 'assign' and s['rv']['k'] == 'ref' and s['rv'].get('mut') and lvl.get(s['rv']['pl']['l']) in ('O', 'R'):
+            del lvl[s['rv']['pl']['l']]
+    return lvl
+
+
+_RES_LABEL = {'Continue': 'ok', 'Ok': 'ok', 'Break': 'err', 'Err': 'err'}
+
+
+def _status_path(F, body, du, lvl, start, goals, removed=(), known0=(None, None)):
+    """Shortest path start -> goals that is feasible with respect to the tests of ONE wait() answer: the locals in `lvl`
+    (see _status_class) all hold the same answer, so a path that leaves one test of it by the None (error) edge cannot
+    take the Some (success) edge of a later one (`if let Some(..) = update { record }; Ok(update)` in a helper, `?` and
+    `if let Some(..)` again in the caller). The state is (ok / err, Some / None) as far as known; blocks in `removed` are
+    not entered (the wait() block itself: a new poll gives a new answer)."""
+    from collections import deque
+    removed, goals = set(removed), set(goals)
+    tests = {}
+    for b in body.live_blocks():
+        ec = Q.edge_condition(F, body, du, b)
+        if ec and ec[0]['k'] == 'discr' and Q.is_plain(ec[0]['pl']) and lvl.get(ec[0]['pl']['l']) in ('R', 'C', 'O'):
+            tests[b] = (0 if lvl[ec[0]['pl']['l']] in ('R', 'C') else 1, ec[1])
+    st0 = (start, tuple(known0))
+    prev = {st0: None}
+    q = deque([st0])
+    while q:
+        b, kn = q.popleft()
+        if b in goals:
+            path, cur = [], (b, kn)
+            while cur is not None:
+                path.append(cur[0])
+                cur = prev[cur]
+            return path[::-1]
+        for s in body.succ(b):
+            if s in removed:
+                continue
+            k2 = kn
+            if b in tests:
+                i, labels = tests[b]
+                labs = {l[1] for l in labels.get(s, []) if l[0] == 'variant'}
+                if i == 0:
+                    labs = {_RES_LABEL.get(x, x) for x in labs}
+                if kn[i] is not None and kn[i] not in labs:
+                    continue
+                if len(labs) == 1:
+                    k2 = (next(iter(labs)), kn[1]) if i == 0 else ('ok', next(iter(labs)))
+            st = (s, k2)
+            if st in prev:
+                continue
+            prev[st] = (b, kn)
+            q.append(st)
+    return None
+
+
 # ----------------------------------------------------------------- R1
 @RS.rule('C13.R1', 'K-ORDER', 'wait-then-sleep loops: SIGCHLD handler armed before the first wait(); success only with a child status')
 def r1(cx):
@@ -61,6 +203,7 @@ def r1(cx):
     for body in F.bodies.values():
         if _is_delegate(body):
             continue
+        body = _with_wait_inlined(F, body)      # the poll may live in a private helper (wait once + record)
         ws = Q.find_calls(body, WAIT)
         sl = Q.find_calls(body, SLEEP)
         if ws and sl:
@@ -68,7 +211,7 @@ def r1(cx):
     # the two loops the shell relies on must still sleep between polls (a loop that lost its sleep is a
     # busy loop, or returns prematurely: reported here, not silently dropped from the inventory)
     for known in ('yash_env::Env::<S>::wait_for_subshell', 'yash_builtin::wait::core::wait_for_any_job_or_trap'):
-        kb = F.main_body(known)
+        kb = _with_wait_inlined(F, F.main_body(known))
         if Q.find_calls(kb, WAIT) and not Q.find_calls(kb, SLEEP):
             cx.site('%s: polls wait() but never sleeps' % kb.fn)
             cx.violation(known, 'none-without-sleep', 'the loop polls wait() without sleeping in wait_for_signal(s) when no child '
@@ -121,7 +264,13 @@ def r1(cx):
                     cx.violation(body.root, 'ok-without-status', 'the wait loop can return success without wait() having '
                                  'reported a child status', loc=body.loc(s))
                     continue
-                if not any(body.dominates(ub, b) and any(c2[2] == some[0][2] for c2 in conds(F, body, du, ub)) for ub, ut in upd):
+                recorded = any(body.dominates(ub, b) and any(c2[2] == some[0][2] for c2 in conds(F, body, du, ub)) for ub, ut in upd)
+                if not recorded and upd and wt.get('to') is not None:
+                    # the same answer tested twice (`if let Some(..) = update { record }; Ok(update)` in a helper, `if let
+                    # Some(..)` again here): every path from this poll to the Ok(..) that is feasible for ONE answer records it
+                    recorded = body.dominates(wb, b) and \
+                        _status_path(F, body, du, _status_class(F, body, du, wt), wt['to'], {b}, removed={ub for ub, _ in upd} | {wb}) is None
+                if not recorded:
                     cx.violation(body.root, 'status-not-recorded', 'the reported child status is not passed to '
                                  'JobList::update_status before returning: the job table would keep the child as running',
                                  loc=body.loc(s))
@@ -141,8 +290,13 @@ def r1(cx):
                 d = await_done(F, body, du, t)
                 if d is not None:
                     sleeps_done.add(d)
+            lvl = _status_class(F, body, du, wt)
             for sb, tgt in none_edges:
                 p = Q.must_pass(body, [tgt], sleeps_done, goal_blocks=set(body.return_blocks()) | {wb})
+                tested = Q.edge_condition(F, body, du, sb)[0]['pl']
+                if p and Q.is_plain(tested) and lvl.get(tested['l']) == 'O':
+                    # the same answer is tested again further on (the poll is a helper that returns it): on this path it is None there too
+                    p = _status_path(F, body, du, lvl, tgt, set(body.return_blocks()) | {wb}, removed=sleeps_done, known0=('ok', 'None'))
                 if p:
                     cx.violation(body.root, 'none-without-sleep', 'after wait() reported no change the loop polls again or '
                                  'returns without sleeping in wait_for_signal(s) (busy loop or premature return)',
@@ -540,7 +694,7 @@ def r5(cx):
                 if not any(body.dominates(ub, b) for ub, _ in ups):
                     cx.violation(fn, 'update-after-command', 'run_command does not collect child statuses before the command',
                                  loc=body.loc(t))
-    ub = F.body('yash_env::Env::<S>::update_all_subshell_statuses')
+    ub = _with_wait_inlined(F, F.body('yash_env::Env::<S>::update_all_subshell_statuses'))    # poll + record may be one private helper
     cx.fn(ub.fn)
     du = Q.DefUse(ub)
     w = Q.find_calls(ub, WAIT)
@@ -553,7 +707,8 @@ def r5(cx):
         if w[0][0] not in ub.reachable(u[0][1]['to']):
             cx.violation(ub.fn, 'reap-once', 'only one child status is collected per call (the rest stay unreaped)', loc=ub.loc(w[0][1]))
         tgt = w[0][1]['a'][1]
-        if not (tgt.get('cdef', '').endswith('Pid::ALL')):
+        org = du.origin(tgt)          # through the parameter of an inlined helper: poll(Pid::ALL)
+        if not (tgt.get('cdef', '').endswith('Pid::ALL') or (org['k'] == 'const' and (org['o'].get('cdef') or '').endswith('Pid::ALL'))):
             cx.violation(ub.fn, 'reap-target', 'update_all_subshell_statuses must wait for any child (Pid::ALL)', loc=ub.loc(w[0][1]))
 
 
@@ -852,6 +1007,8 @@ def _any_child_sites(F, body):
     or the wait_for_subshell family asked for any child."""
     du = None
     out = []
+    # a private helper that forwards its parameter to wait() is looked at in place: `self.poll_status(Pid::ALL)` is wait(any child)
+    body = _with_wait_inlined(F, body)
     for b, t in body.calls():
         if Q.callee_is(t, [UPDATE_ALL, WAIT_ANY_JOB]):
             out.append((b, t, pp.callee(t).split('::')[-1]))
@@ -908,7 +1065,7 @@ def r10(cx):
                              '(panic "cannot receive exit status of child process") and $? depends on which member happens to exit first'
                              % chain(fn), loc=body.loc(t))
     for fn in family:
-        b = F.main_body(fn)
+        b = _with_wait_inlined(F, F.main_body(fn))
         cx.fn(b.fn)
         du = Q.DefUse(b)
         tg = [(blk, t) for blk, t in b.calls() if Q.callee_is(t, WAIT) or Q.callee_is(t, WAITERS)]
@@ -974,3 +1131,6 @@ def r1b(cx):
 
 
 RS.explanation += ' The SIGCHLD handler is installed before a child is created (R1b).'
+RS.explanation += (' Shape tolerance: a private same-module helper that polls wait() itself (wait once, record the answer, return it) is '
+                   'analysed in place (R1, R5, R10); where the same wait() answer is tested twice (in the helper and again by its caller) '
+                   'the path clauses of R1 follow only paths that are consistent for one answer.')
